@@ -183,6 +183,115 @@ func c45CheckAccepted(input []byte, n *Node, rec *enr.Record, seq uint64, pairs 
 			return fmt.Errorf("key %q loads %x, record has %x", p.k, raw, p.v)
 		}
 	}
+	return c45Aliasing(input, n, seq, pairs)
+}
+
+// c45Intact: what must still hold for an accepted record (or node) after somebody mutated a VALUE COPY of it.
+func c45Intact(what string, rec *enr.Record, input, sig []byte, seq uint64, pairs []c45Pair, id ID) error {
+	if rec.Seq() != seq {
+		return fmt.Errorf("%s: seq is now %d, was %d", what, rec.Seq(), seq)
+	}
+	if !bytes.Equal(rec.Signature(), sig) {
+		return fmt.Errorf("%s: signature changed", what)
+	}
+	for _, p := range pairs {
+		var raw rlp.RawValue
+		if err := rec.Load(enr.WithEntry(p.k, &raw)); err != nil || !bytes.Equal(raw, p.v) {
+			return fmt.Errorf("%s: key %q now loads %x (err %v), the accepted record has %x", what, p.k, raw, err, p.v)
+		}
+	}
+	if err := rec.VerifySignature(ValidSchemes); err != nil {
+		return fmt.Errorf("%s: signature of the accepted record no longer verifies: %v", what, err)
+	}
+	re, err := rlp.EncodeToBytes(rec)
+	if err != nil || !bytes.Equal(re, input) {
+		return fmt.Errorf("%s: re-encodes to %x (err %v), accepted bytes were %x", what, re, err, input)
+	}
+	n, err := New(ValidSchemes, rec)
+	if err != nil || n.ID() != id {
+		return fmt.Errorf("%s: enode.New on the accepted record now fails: %v", what, err)
+	}
+	return nil
+}
+
+// c45Aliasing: enr.Record is passed around by value (Node.Record(), SignV4, newNodeWithID). Mutating a value
+// copy must never reach the accepted original, and mutating the original must never reach an earlier copy.
+func c45Aliasing(input []byte, n *Node, seq uint64, pairs []c45Pair) error {
+	var first enr.Record
+	if err := rlp.DecodeBytes(input, &first); err != nil {
+		return err
+	}
+	sig := first.Signature()
+	other := rlp.RawValue(c45Str([]byte{0xee, 0xee, 0xee}))
+	type mut struct {
+		name string
+		fn   func(r *enr.Record)
+	}
+	var muts []mut
+	for _, p := range pairs {
+		k := p.k
+		muts = append(muts, mut{"Set(existing " + k + ")", func(r *enr.Record) { r.Set(enr.WithEntry(k, other)) }})
+	}
+	for _, k := range []string{"0", "c", "zz"} {
+		muts = append(muts, mut{"Set(new " + k + ")", func(r *enr.Record) { r.Set(enr.WithEntry(k, other)) }})
+	}
+	muts = append(muts,
+		mut{"SetSeq", func(r *enr.Record) { r.SetSeq(seq + 1) }},
+		mut{"SetSig(nil)", func(r *enr.Record) { r.SetSig(nil, nil) }},
+		mut{"all", func(r *enr.Record) {
+			for _, p := range pairs {
+				r.Set(enr.WithEntry(p.k, other))
+			}
+			r.Set(enr.WithEntry("c", other))
+			r.SetSeq(seq + 9)
+		}})
+	for _, m := range muts {
+		// (1) copy of a decoded record mutated, original checked
+		var orig enr.Record
+		if err := rlp.DecodeBytes(input, &orig); err != nil {
+			return err
+		}
+		cp := orig
+		m.fn(&cp)
+		if err := c45Intact("decoded record after "+m.name+" on a value copy", &orig, input, sig, seq, pairs, n.ID()); err != nil {
+			return err
+		}
+		// (2) original mutated, earlier copy checked
+		var orig2 enr.Record
+		if err := rlp.DecodeBytes(input, &orig2); err != nil {
+			return err
+		}
+		keep := orig2
+		m.fn(&orig2)
+		if err := c45Intact("value copy taken before "+m.name+" on the original", &keep, input, sig, seq, pairs, n.ID()); err != nil {
+			return err
+		}
+		// (3) the record handed out by an accepted node mutated, the node checked
+		nn, err := New(ValidSchemes, &orig)
+		if err != nil {
+			return err
+		}
+		m.fn(nn.Record())
+		held := nn.Record()
+		m.fn(held)
+		if nn.Seq() != seq {
+			return fmt.Errorf("node after %s on Node.Record(): seq %d, was %d", m.name, nn.Seq(), seq)
+		}
+		if err := c45Intact("accepted node after "+m.name+" on Node.Record()", nn.Record(), input, sig, seq, pairs, n.ID()); err != nil {
+			return err
+		}
+		for _, p := range pairs {
+			var raw rlp.RawValue
+			if err := nn.Load(enr.WithEntry(p.k, &raw)); err != nil || !bytes.Equal(raw, p.v) {
+				return fmt.Errorf("accepted node after %s on Node.Record(): Load(%q) = %x (err %v), accepted %x", m.name, p.k, raw, err, p.v)
+			}
+		}
+		// the record the node was built from is the caller's: mutating it afterwards must not reach the node either
+		m.fn(&orig)
+		if err := c45Intact("accepted node after "+m.name+" on the record it was created from", nn.Record(), input, sig, seq, pairs, n.ID()); err != nil {
+			return err
+		}
+	}
 	return nil
 }
 
